@@ -36,6 +36,7 @@ type c06Scenario struct {
 	VPN    bool     `json:"raw_ip_framing"`
 	Frames []string `json:"frames"`
 	Pair   bool     `json:"enumerated_pair,omitempty"`
+	Burst  bool     `json:"burst,omitempty"` // frames delivered back to back: several records in flight at once
 }
 
 var (
@@ -370,6 +371,7 @@ type c06Reader struct {
 	frames chan []byte
 	ctx    context.Context
 	calls  int
+	ring   []byte // zero-copy ring slot: every frame is handed out in the same memory
 }
 
 func (r *c06Reader) ReadPacketData() ([]byte, *gopacket.CaptureInfo, error) {
@@ -378,7 +380,17 @@ func (r *c06Reader) ReadPacketData() ([]byte, *gopacket.CaptureInfo, error) {
 	if cancelled || !ok {
 		return nil, &gopacket.CaptureInfo{}, io.EOF
 	}
-	return f, &gopacket.CaptureInfo{Length: len(f), CaptureLength: len(f)}, nil
+	// like the AF_PACKET ring: the slice of the previous frame is overwritten by this one
+	if cap(r.ring) < len(f) {
+		r.ring = make([]byte, len(f), 2048+len(f))
+	}
+	full := r.ring[:cap(r.ring)]
+	for i := range full {
+		full[i] = 0xa5
+	}
+	r.ring = r.ring[:len(f)]
+	copy(r.ring, f)
+	return r.ring, &gopacket.CaptureInfo{Length: len(f), CaptureLength: len(f)}, nil
 }
 
 var c06Modes = []struct {
@@ -462,8 +474,25 @@ func runC06(t *testing.T, c simrt.Chooser, o Opts) *Out {
 			frames = append(frames, f)
 		}
 	}
+	if !enum && p.pct("burst", 30) {
+		// burst: no quiescence between the frames, so records of several frames are in the result
+		// buffers at the same time (a record must not share state with a later one).  Only frames
+		// whose verdict is certain take part; records are compared as a sequence.
+		sc.Burst = true
+		var keep []c06Frame
+		for _, f := range frames {
+			if v := c06Classify(sc.Proc, sc.VPN, f.data); v.must || !v.may {
+				keep = append(keep, f)
+			}
+		}
+		frames = keep
+	}
 	for _, f := range frames {
 		sc.Frames = append(sc.Frames, f.tag)
+	}
+	if len(frames) == 0 {
+		frames = []c06Frame{{nil, "empty"}}
+		sc.Frames = []string{"empty"}
 	}
 	out := &Out{Scenario: sc, Stats: map[string]int{"frames": len(frames)}}
 	type perFrame struct {
@@ -471,6 +500,7 @@ func runC06(t *testing.T, c simrt.Chooser, o Opts) *Out {
 		errs int
 	}
 	got := make([]perFrame, len(frames))
+	var held []scan.Result
 	finished := false
 	var reader *c06Reader
 	errClosed := false
@@ -500,6 +530,10 @@ func runC06(t *testing.T, c simrt.Chooser, o Opts) *Out {
 				if cancelled || !ok {
 					return
 				}
+				if sc.Burst {
+					held = append(held, v) // looked at only after the whole burst went through
+					continue
+				}
 				got[cur].recs = append(got[cur].recs, c06RecordFields(sc.Proc, v))
 			}
 		})
@@ -514,12 +548,20 @@ func runC06(t *testing.T, c simrt.Chooser, o Opts) *Out {
 			}
 		})
 		for i, f := range frames {
-			cur = i
+			if !sc.Burst {
+				cur = i
+			}
 			simrt.Pre("c06.deliver")
 			reader.frames <- f.data
 			simrt.Post()
+			if sc.Burst {
+				continue
+			}
 			// virtual time advances only when every goroutine is blocked: the frame has gone through
 			// processor, result channel and consumers
+			simrt.Sleep("c06.quiesce", time.Microsecond)
+		}
+		if sc.Burst {
 			simrt.Sleep("c06.quiesce", time.Microsecond)
 		}
 		simrt.Cancel("c06.cancel", cancel)
@@ -543,6 +585,34 @@ func runC06(t *testing.T, c simrt.Chooser, o Opts) *Out {
 	}
 	if reader.calls < len(frames) {
 		out.violate("C06.receiver-stopped", mode, "the receiver read %d of %d frames", reader.calls, len(frames))
+	}
+	if sc.Burst {
+		var wantSeq, gotSeq []string
+		for _, f := range frames {
+			if v := c06Classify(sc.Proc, sc.VPN, f.data); v.must {
+				wantSeq = append(wantSeq, v.fields)
+			}
+		}
+		for _, r := range held {
+			gotSeq = append(gotSeq, c06RecordFields(sc.Proc, r))
+		}
+		if !eqStrs(gotSeq, wantSeq) {
+			k := 0
+			for k < len(gotSeq) && k < len(wantSeq) && gotSeq[k] == wantSeq[k] {
+				k++
+			}
+			g, w := "(none)", "(none)"
+			if k < len(gotSeq) {
+				g = gotSeq[k]
+			}
+			if k < len(wantSeq) {
+				w = wantSeq[k]
+			}
+			out.violate("C06.burst-records", mode, "burst of %d frames %v: %d records, %d expected; first difference at record %d: got {%s}, the frame says {%s} (records that were in flight together must each describe their own frame)", len(frames), sc.Frames, len(gotSeq), len(wantSeq), k, g, w)
+		}
+		out.Stats["burst_runs"]++
+		simrtProbe(&res, "burst-records-in-flight")
+		return out
 	}
 	for i, f := range frames {
 		v := c06Classify(sc.Proc, sc.VPN, f.data)
